@@ -39,4 +39,10 @@ CLAIMED["C07"] = {
     "technique": "Lean 4 proof (frame + refinement, induction over interleaved histories) + differential correspondence run",
 }
 
+CLAIMED["C05"] = {
+    "text": "Theorems (Lean, arbitrary schedules = lists of calls of any length and interleaving over any number of sessions): while a transaction is open nothing but its own commit changes what other sessions read (its writes are private, foreign writes are refused with no effect); rollback/drop/close(false) after any schedule leaves the published state exactly as before; the transaction's own calls return what they would return run alone in sequence on its starting state (read-your-writes) and commit publishes exactly that sequential result at once; a plain session's call is applied to the published state immediately and survives any ending; a plain read never blocks and sees the published state; a blocked call has no effect. The session/transaction model is executed against the real code on call-level schedules (one writing transaction, two plain sessions, a competing transaction, every ending) on file-backed WAL stores. Two genuine defects found by this check were repaired (09f56cf, daff2ae).",
+    "note": SQL + "SQLite's WAL isolation (single write lock taken at transaction start, readers see the last committed state) is the abstract store's assumption, validated by the run; real thread interleavings are C10's subject (here schedules are call-level and deterministic).",
+    "technique": "Lean 4 proof (induction over schedules of a transactional store model) + differential correspondence run on deterministic call-level interleavings",
+}
+
 NOT_YET = {}
